@@ -72,6 +72,11 @@ type Program struct {
 	lockFlows   map[*ssa.Function]*LockFlow
 	accesses    map[*ssa.Function][]Access
 	rootsAll    []Root
+	boundCache  map[*ssa.Function][]BoundObl
+	lenSums     map[string][2]int64
+	lenBusy     map[string]bool
+	intSums     map[string]*IntSum
+	lenEq       map[*ssa.Function][][2]int
 
 	NumPackages int
 	NumFuncs    int
